@@ -224,6 +224,16 @@ def setattrUndef (O : Oracles) (c : ClassOpts) (fields : List (String × FieldDe
         | .err _ => x.nones       -- a rejected assignment restores `_none_fields` (810b853)
       ({ x with attrs := r.1, nones := ns }, r.2)
 
+/-- the table row of mutator `m` on the wrapper of field `f` re-assigns the field -/
+def callReassigns (tbl : List MethodRec) (fields : List (String × FieldDecl)) (f : String) (m : NOp) : Bool :=
+  match lookup f fields with
+  | none => false
+  | some fd => match wrapperKind fd with
+    | none => false
+    | some kind => match findRec tbl kind m.name with
+      | none => false
+      | some r => r.validated
+
 /-- `Structure.__setattr__` refuses an immutable structure only once `_instantiated` is set;
     `__delitem__` and the wrappers' guards look at the class alone -/
 def stepI (tbl : List MethodRec) (O : Oracles) (c : ClassOpts) (fields : List (String × FieldDecl))
@@ -235,6 +245,13 @@ def stepI (tbl : List MethodRec) (O : Oracles) (c : ClassOpts) (fields : List (S
     else
       let r := setattrStep O { c with immutable := c.immutable && x.instantiated } fields x.attrs f v
       ({ x with attrs := r.1 }, r.2)
+  | .call f m =>
+    let r := step tbl O c fields x.attrs (.call f m)
+    -- a wrapper mutator that re-assigns the mutated copy goes through `Structure.__setattr__`, which
+    -- on an `_enable_undefined_value` class un-records an explicit `None` of that field on success
+    let ns := if x.undef && r.2 == .ok && callReassigns tbl fields f m
+              then x.nones.filter (fun n => n != f) else x.nones
+    ({ x with attrs := r.1, nones := ns }, r.2)
   | op =>
     let r := step tbl O c fields x.attrs op
     ({ x with attrs := r.1 }, r.2)
